@@ -3,7 +3,7 @@ checks -- per-property wiring: families, counts, coverage accounting, evidence t
 """
 import json
 
-from sim import core, histsim, runner, streamsim
+from sim import core, defsim, histsim, runner, streamsim
 
 
 # ----------------------------------------------------------------------------
@@ -118,7 +118,43 @@ def c17(tier):
 
 
 
+def _account_def(stats, plan, tr):
+    stats.steps += len(plan['items'])
+    kinds = [it['kind'] for it in plan['items']]
+    for k in kinds:
+        stats.probe('msg_' + k)
+    stats.probe('sub_' + plan['knobs'].get('sub', '?'))
+    stats.probe('definitions_delivered', sum(1 for d in tr['deliveries'] if d['cat'] == 11))
+    stats.probe('data_messages_compared', sum(1 for d in tr['deliveries'] if d['cat'] != 11))
+    for it in plan['items']:
+        if it.get('after_cached'):
+            stats.probe('new_message_on_group_cached_before_definition')
+        if it.get('uses_redefined'):
+            stats.probe('new_message_using_redefined_id')
+        if it.get('uses_ncep'):
+            stats.probe('new_message_using_replication_only_sequence')
+        if it.get('reused_template'):
+            stats.probe('new_message_reusing_an_earlier_descriptor_list')
+            if it.get('uses_redefined'):
+                stats.probe('reused_descriptor_list_after_redefinition')
+        if it['kind'] == 'def':
+            stats.probe('b_entries', len(it['b']))
+            stats.probe('d_entries', len(it['d']))
+            if it.get('redefined'):
+                stats.probe('redefining_definitions')
+    if sum(1 for k in kinds if k == 'def') > 1:
+        stats.probe('sessions_with_several_definitions')
+    if tr.get('file'):
+        stats.probe('table_file_equivalence_checks', len(tr['file']))
+    if 'bad' in kinds:
+        stats.faults_fired['stopsig'] = stats.faults_fired.get('stopsig', 0) + kinds.count('bad')
+    if plan['knobs'].get('compiled') is not None:
+        stats.probe('compiled_sessions')
+
+
 def _account_hist(stats, plan, tr):
+    if plan.get('engine') == 'defsim':
+        return _account_def(stats, plan, tr)
     stats.steps += len(plan['ops'])
     for k, v in tr['probes'].items():
         if k.startswith('max_') or k.endswith('_final'):
@@ -175,7 +211,7 @@ def c13(tier):
 def c08(tier):
     return runner.check_main(
         'C08', tier, histsim, 'histsim',
-        [('c08', 240, 16000)],
+        [('c08', 240, 16000), ('c08-def', 300, 20000, 'defsim')],
         'exploration',
         'seeded histories biased to compiling clients (cache 0/1/2/8), always containing a pair of messages with the '
         'same descriptor list under table versions where an element differs and messages with marker operators, '
@@ -189,8 +225,38 @@ def c08(tier):
         pool_kwargs={'n_ops': 900} if tier == 'thorough' else dict(HIST_POOL, n_ops=110), design_ref='5.3')
 
 
-CHECKS = {'C11': c11, 'C12': c12, 'C17': c17, 'C13': c13, 'C08': c08}
-ENGINES = {'C11': streamsim, 'C12': streamsim, 'C17': streamsim, 'C13': histsim, 'C08': histsim}
+ASSUME_DEF = [
+    'the independent writer sim/bufrgen.py writes the NCEP-layout definition message (the 15-descriptor template '
+    '1-03-000 0-31-001 0-00-001..003 1-01-000 0-31-001 3-00-004 1-05-000 0-31-001 3-00-003 2-05-064 1-01-000 '
+    '0-31-001 0-00-030) and the data messages; ground truth (raw values, widths, scales, references, units, '
+    'flattened membership) is known by construction from the registry snapshot each message was written against',
+    'new element ids are F=0, X in 48..63; new sequence ids F=3, X in 48..63; code/flag-table elements are '
+    'defined with scale 0 and reference 0; the element name is recorded but not demanded',
+    'table-file equivalence (C20.d) is checked in about a quarter of the sessions and not for replication-only '
+    'sequences (their repair is only active when in-stream definitions exist)',
+    'a clean batch is evidence for the sampled sessions, not a proof',
+]
+
+
+def c20(tier):
+    return runner.check_main(
+        'C20', tier, defsim, 'defsim',
+        [('c20', 500, 20000), ('c20-redef', 400, 16000), ('c20-ncep', 300, 12000)],
+        'exploration',
+        'seeded stream sessions of 3..14 messages {std data message (table group cached before a definition), '
+        'definition message with 1..8 new Table B and 0..4 new Table D entries, data message over defined and '
+        'standard descriptors (1..3 subsets, compressed or not), stop-signature-damaged message under '
+        'continue-on-error} with seeded separators, scanned by the real generate_bufr_message in one process; '
+        'families: disjoint ids accumulate / later definitions re-define ids / replication-only sequences; '
+        'oracle = registry model + writer ground truth (+ the same message decoded against table files holding '
+        'the registry); distinct = (family, per message: kind, #B, #D, redefines?, uses replication-only '
+        'sequence?, first use of a table group cached before the definition?, uses a re-defined id?; '
+        'continue flag; file check); non-trivial = a data message over defined ids follows a definition',
+        ASSUME_DEF, _account_def, design_ref='6')
+
+
+CHECKS = {'C11': c11, 'C12': c12, 'C17': c17, 'C13': c13, 'C08': c08, 'C20': c20}
+ENGINES = {'C11': streamsim, 'C12': streamsim, 'C17': streamsim, 'C13': histsim, 'C08': histsim, 'C20': defsim}
 
 
 def replay(prop, path):
